@@ -1,15 +1,52 @@
 (* C11 - Calculations are pure and independent of process history.
-   In the functional state-machine model (Model/Inventory.v) purity is structural: an operation is a
-   function of the receiver's contents, its arguments and the immutable data-set parameters.  The
-   theorems below state the parts that are not structural: failure atomicity, that the binary operators
-   leave both operands' look-ups as they were (they are values), and determinism of histories.  That the
-   Python methods really behave like these functions - in particular that the shared work templates
-   are copied before being written - is decided by the fingerprint correspondence (tools/impl_history.py)
-   and by the source-text ties of every method (tools/tr_shapes.py). *)
+   (1) Effect summaries of every method of inventory.py are GENERATED from the source (Gen/EffectsGen.v);
+       the checkers [pure] / [atomic] are proved sound w.r.t. a heap semantics with version counters, and
+       evaluated by the kernel on the generated summaries: no calculation, read-out, operator, series/plot
+       or CSV method can change an object that existed before the call (the shared work templates are
+       copied before being written), and add / subtract / remove only re-bind self.contents, after the
+       last event that may raise.
+   (2) Failure atomicity of the state-machine model of the mutators.
+   That library calls return new objects and do not retain or mutate their arguments is outside the
+   model; it is what the fingerprint correspondence (tools/impl_history.py) polices. *)
 From Coq Require Import ZArith NArith List Bool.
-From RD Require Import Base Lib.Py Lib.Num Gen.UtilsGen Model.Inventory.
-From RD Require Proofs.InventoryP.
+From RD Require Import Base Lib.Py Lib.Num Gen.UtilsGen Model.Inventory Model.Effects Gen.EffectsGen.
+From RD Require Proofs.InventoryP Proofs.EffectsP.
 Import ListNotations.
+
+(* soundness of the purity check: objects that existed before the call keep their version, and no
+   attribute of the receiver is re-bound *)
+Theorem pure_sound : forall shared_loc evs h, pure evs = true ->
+  (forall p, (shared_loc p < next h)%N) ->
+  let h' := snd (run shared_loc evs h) in
+  (forall l, (l < next h)%N -> version h' l = version h l) /\ (forall a, attr_slot h' a = attr_slot h a).
+Proof. exact Proofs.EffectsP.pure_sound. Qed.
+
+(* soundness of the atomicity check: wherever the call raises, nothing that existed before has changed and
+   no attribute has been re-bound; on success pre-existing objects are unchanged and only the listed
+   attributes are re-bound *)
+Theorem atomic_sound : forall shared_loc evs h, atomic evs = true ->
+  (forall p, (shared_loc p < next h)%N) ->
+  (forall j, nth_error evs j = Some MayRaise ->
+     let hj := snd (run_until shared_loc j evs h) in
+     (forall l, (l < next h)%N -> version hj l = version h l) /\ (forall a, attr_slot hj a = attr_slot h a)) /\
+  (let h' := snd (run shared_loc evs h) in
+   (forall l, (l < next h)%N -> version h' l = version h l) /\
+   (forall a, existsb (n_eqb a) (assigned_attrs evs) = false -> attr_slot h' a = attr_slot h a)).
+Proof. exact Proofs.EffectsP.atomic_sound. Qed.
+
+(* the generated summaries of the current source pass the checks *)
+Theorem all_calculations_pure : forallb (fun m => pure (snd m)) pure_methods = true.
+Proof. exact Proofs.EffectsP.all_calculations_pure. Qed.
+
+Theorem all_mutators_atomic :
+  forallb (fun m => atomic (snd m) &&
+                    forallb (fun a => n_eqb a [99; 111; 110; 116; 101; 110; 116; 115]%N) (assigned_attrs (snd m)))
+          mutator_methods = true.
+Proof. exact Proofs.EffectsP.all_mutators_atomic. Qed.
+
+(* the work vector, the index list and the diagonal matrix handed out by _setup_decay_calc are fresh objects *)
+Theorem setup_returns_fresh : forallb (fun o => match o with OFresh => true | _ => false end) helper_setup_returns = true.
+Proof. exact Proofs.EffectsP.setup_returns_fresh. Qed.
 
 Section AnyDomain.
   Context {T : Type} (ops : numops T).
@@ -17,10 +54,8 @@ Section AnyDomain.
   Context (avogadro : T) (names : list str) (decay_consts atomic_masses : list T).
   Variables (amount_ok : T -> bool) (normalise nneg : T -> T).
   Notation step := (step ops activity_units mass_units moles_units avogadro names decay_consts atomic_masses amount_ok normalise nneg).
-  Notation run := (run ops activity_units mass_units moles_units avogadro names decay_consts atomic_masses amount_ok normalise nneg).
 
   (* a mutating call (add, subtract, remove, remove of a list) that raises leaves the inventory as it was *)
   Theorem step_atomic : forall a o a' e, step a o = (a', Some e) -> a' = a.
   Proof. exact (Proofs.InventoryP.step_atomic ops activity_units mass_units moles_units avogadro names decay_consts atomic_masses amount_ok normalise nneg). Qed.
-
 End AnyDomain.
